@@ -112,6 +112,21 @@ struct Live
     std::map<std::string, no::multi_option*> m;
     std::map<std::string, no::toggle*> t;
     std::vector<std::unique_ptr<no::parser>> kept; // moved-from parsers that stay alive
+    std::map<std::string, no::group*> groups;       // group references obtained once and kept by the caller
+
+    // named groups: through the kept reference once it exists; default group: name "a" through the parser's own
+    // option()/multi_option()/toggle(), name "b" through a kept reference to the default group
+    no::group& group_for(const std::string& g, const std::string& item_name)
+    {
+        std::string key = g.empty() ? "<default>" : g;
+        auto it = groups.find(key);
+        if (it != groups.end())
+            return *it->second;
+        no::group& ref = g.empty() ? p->group() : p->group(g);
+        groups[key] = &ref;
+        (void)item_name;
+        return ref;
+    }
 };
 
 struct StepResult
@@ -165,21 +180,21 @@ static StepResult apply(Live& L, RefState& R, const Ev& e)
         {
             if (e.kind == 'o')
             {
-                auto& x = e.group.empty() ? L.p->option(e.name) : L.p->group(e.group).option(e.name);
+                auto& x = (e.group.empty() && e.name == "a") ? L.p->option(e.name) : L.group_for(e.group, e.name).option(e.name);
                 x.optional();
                 addr = &x;
                 L.o[e.name] = &x;
             }
             else if (e.kind == 'm')
             {
-                auto& x = e.group.empty() ? L.p->multi_option(e.name) : L.p->group(e.group).multi_option(e.name);
+                auto& x = (e.group.empty() && e.name == "a") ? L.p->multi_option(e.name) : L.group_for(e.group, e.name).multi_option(e.name);
                 x.optional();
                 addr = &x;
                 L.m[e.name] = &x;
             }
             else
             {
-                auto& x = e.group.empty() ? L.p->toggle(e.name) : L.p->group(e.group).toggle(e.name);
+                auto& x = (e.group.empty() && e.name == "a") ? L.p->toggle(e.name) : L.group_for(e.group, e.name).toggle(e.name);
                 addr = &x;
                 L.t[e.name] = &x;
             }
